@@ -111,9 +111,13 @@ class FunctionCall:
                         raise PedanticTypeCheckException(f'{self.func.err}Parameter "{key}" is unfilled.')
 
                     actual_value = self.kwargs[key]
-                else:
+                elif key in self.kwargs:
+                    actual_value = self.kwargs[key]
+                elif arg_index < len(self.args):
                     actual_value = self.args[arg_index]
                     arg_index += 1
+                else:
+                    raise PedanticTypeCheckException(f'{self.func.err}Parameter "{key}" is unfilled.')
             else:
                 if key in self.kwargs:
                     actual_value = self.kwargs[key]
